@@ -127,9 +127,10 @@ def execute_all(schedules, procs=NCPU, chunk=64):
 
 
 def split_pools(trace, npools):
-    if npools == 1:
+    if npools == 1 and not any("p" in r for r in trace[:3]):
         return [trace]
-    return [[r for r in trace if r.get("p", 0) == p] for p in range(npools)]
+    n = max([r.get("p", 0) for r in trace] + [0]) + 1
+    return [[r for r in trace if r.get("p", 0) == p] for p in range(n)]
 
 
 def judge(traces, wd, name="batch", workers=NCPU, timeout=3600):
